@@ -14,7 +14,7 @@ use alloc::{str::from_utf8, vec};
 #[cfg(feature = "zlib")]
 use miniz_oxide::inflate::decompress_to_vec_zlib_with_limit;
 
-use rustzx_z80::{Z80Bus, Z80};
+use rustzx_z80::Z80;
 
 const ZXST_MID_128K: u32 = 2;
 
@@ -193,7 +193,9 @@ fn process_spcr_block<H: Host>(emulator: &mut Emulator<H>, machine_id: u32, bloc
     // Only 128 and 48k models supported currently. Skipping block_data[2] (union)
 
     // chFe
-    emulator.controller.write_io(0x0fe, block_data[3]);
+    // Restored without bus cycles: loading must not consume emulated time, otherwise
+    // frame position of the loaded machine depends on the order of Z80R and SPCR blocks
+    emulator.controller.write_ula_port(block_data[3]);
 
     // chBorder
     // Setting the border after the out to 0xfe above because that too
